@@ -349,12 +349,13 @@ pub fn c07_continuation(cfg: &Arc<W4Cfg>, acts: &[Act]) -> Result<u32, (String, 
         // "back in cyclic data exchange" is judged on BOTH sides: the master reports running + DataExchanged,
         // and the (conforming) slave is in its data-exchange state — not still waiting for parameters while
         // the master takes its refusals for confirmations
-        let all = (0..n).all(|i| e.rig.periph(i).is_running() && e.dx_events[i] > start_dx[i] && e.slaves[i].state == crate::dprig::SlaveState::DataExch);
+        let present = |i: usize| cfg.slave_dev.get(i).copied() != Some(3);
+        let all = (0..n).filter(|i| present(*i)).all(|i| e.rig.periph(i).is_running() && e.dx_events[i] > start_dx[i] && e.slaves[i].state == crate::dprig::SlaveState::DataExch);
         if all && ok_at.is_none() {
             ok_at = Some(steps);
         }
         if let Some(s) = ok_at {
-            if !(0..n).all(|i| e.rig.periph(i).is_running()) {
+            if !(0..n).filter(|i| present(*i)).all(|i| e.rig.periph(i).is_running()) {
                 return Err(("c07.not_stable".into(), format!("a peripheral left data exchange again {steps} steps into the fault-free continuation (first complete at {s})")));
             }
             if steps >= s + 3 * n as u32 {
@@ -440,6 +441,25 @@ pub fn run_c07(tier: Tier) -> ! {
         plans.push(Plan { label: "2p".into(), cfg, depth: tier.pick(8, 14), max_states: tier.pick(100_000, 2_000_000), secs: tier.pick(60.0, 2400.0) });
     }
     plans.extend(param_sweep_plans(Mon::C07, std_acts(1, &[0, 8, 16], true), std_acts(2, &[8], true), tier));
+    // many peripherals, some of which do not exist: the stations that are there come up and come back
+    // regardless of how many configured stations stay silent and of where they sit in the storage
+    // (found by a seeded change: a probe budget per cycle that absent stations in low slots used up)
+    {
+        let addrs: [u8; 8] = [9, 11, 4, 30, 14, 17, 60, 125];
+        let layouts: Vec<(usize, Vec<usize>)> = tier.pick(
+            vec![(5, vec![0, 1, 2, 3]), (6, vec![0, 1, 2, 3, 5]), (8, vec![1, 2, 4, 5, 6])],
+            vec![(5, vec![0, 1, 2, 3]), (6, vec![0, 1, 2, 3, 5]), (8, vec![1, 2, 4, 5, 6]), (8, vec![0, 1, 2, 3, 4, 5, 6]), (8, vec![]), (7, vec![6]), (5, vec![4])],
+        );
+        for (n, absent) in layouts {
+            let ps: Vec<PeriphCfg> = (0..n).map(|i| PeriphCfg::simple(addrs[i], (i % 3) as usize, ((i + 1) % 3) as usize)).collect();
+            let mut cfg = base_cfg(ps, Mon::C07, vec![Act::Answer, Act::ReqLost, Act::PowerCycle, Act::Malformed(8)]);
+            for a in &absent {
+                cfg.slave_dev[*a] = 3;
+            }
+            cfg.dev_budget = tier.pick(1, 2);
+            plans.push(Plan { label: format!("{n}p absent{absent:?}"), cfg, depth: tier.pick(3 * n, 4 * n + 4), max_states: tier.pick(50_000, 1_000_000), secs: tier.pick(60.0, 2400.0) });
+        }
+    }
     let t = explore(plans, tier.pick(400.0, 14400.0), &|w| {
         if w.dead {
             return;
